@@ -333,6 +333,58 @@ func coreEvents() []ev {
 	return es
 }
 
+// ivSet is a set of timing parameters a peer may legally advertise (RFC 5880 4.1: the interval fields are
+// 32-bit microsecond counts, any value from 1 to 2^32-1 is legal).
+type ivSet struct {
+	name   string
+	tx, rx uint32 // Desired Min TX / Required Min RX, microseconds
+	mult   uint8
+}
+
+// wideIntervals puts values around every width boundary that a conversion between the 32-bit microsecond
+// fields and 64-bit nanosecond durations can trip over (2^16 us, 2^31 ns, 2^32 ns, 2^31 us, 2^32-1 us) plus
+// large everyday values. The huge ones also carry a huge Required Min RX, which keeps the number of packets
+// the session sends during the (virtual) days of waiting small.
+func wideIntervals() []ivSet {
+	return []ivSet{
+		{"tx=65535us", 65535, 100000, 3},
+		{"tx=65536us", 65536, 100000, 3},
+		{"tx=2147483us", 2147483, 100000, 2}, // just below 2^31 ns
+		{"tx=2147484us", 2147484, 100000, 2}, // just above
+		{"tx=4294967us", 4294967, 100000, 1}, // just below 2^32 ns
+		{"tx=4294968us", 4294968, 100000, 1}, // just above
+		{"tx=rx=5s", 5000000, 5000000, 3},
+		{"tx=rx=60s", 60000000, 60000000, 2},
+		{"tx=rx=2^31us", 1 << 31, 1 << 31, 1},
+		{"tx=rx=2^32-1us", 1<<32 - 1, 1<<32 - 1, 255},
+		{"tx=300ms,rx=4294968us", 300000, 4294968, 2}, // a large Required Min RX must not leak into the detection time
+	}
+}
+
+// detectionTime is RFC 5880 6.8.4 in 64-bit arithmetic: remote Detect Mult x max(our Required Min RX, remote
+// Desired Min TX).
+func (c sessCfg) detectionTime(p Pkt) time.Duration {
+	tx := time.Duration(p.DesiredTx) * time.Microsecond
+	if c.Required > tx {
+		tx = c.Required
+	}
+	return time.Duration(p.DetectMult) * tx
+}
+
+func wideEvents(c sessCfg) []ev {
+	es := []ev{{Name: "wait(2us)", Wait: 2 * time.Microsecond, Cls: "wait"}}
+	for _, iv := range wideIntervals() {
+		var p Pkt
+		for _, st := range []St{Down, Init} {
+			p = Pkt{Version: 1, State: st, DetectMult: iv.mult, My: discR1, Your: discLocal, DesiredTx: iv.tx, RequiredRx: iv.rx}
+			es = append(es, ev{Name: fmt.Sprintf("recv(%v,%s,mult=%d)", st, iv.name, iv.mult), P: p, Cls: "recv-" + st.String() + ":wide-interval"})
+		}
+		es = append(es, ev{Name: fmt.Sprintf("wait(DT[%s,mult=%d]-1us)", iv.name, iv.mult),
+			Wait: c.detectionTime(p) - time.Microsecond, Cls: "wait:wide-interval"})
+	}
+	return es
+}
+
 // discardEvents: packets that differ from an acceptable one in exactly one field.
 func discardEvents() []ev {
 	var es []ev
@@ -399,6 +451,10 @@ func (lb *layerB) replay(hist []ev) replayOut {
 		ref := NewRef(c.Local, c.Remote, c.Required)
 		mark := 0
 		var tx time.Duration
+		maxIv := time.Second
+		if c.Desired > maxIv {
+			maxIv = c.Desired
+		}
 		observe := func() Obs {
 			st, d, x := s.VerifSnapshot()
 			tx = x
@@ -438,9 +494,9 @@ func (lb *layerB) replay(hist []ev) replayOut {
 				time.Sleep(e.Wait)
 				synctest.Wait()
 				n := checkSent(i)
-				if e.Wait > time.Second && n == 0 {
-					// the transmit interval is at most max(1s, configured, remote required rx = 100ms)
-					viol("sent/stopped-sending", i, map[string]any{"waited": e.Wait.String()})
+				if e.Wait > maxIv && n == 0 {
+					// the transmit interval is at most max(1s, configured, largest Required Min RX received)
+					viol("sent/stopped-sending", i, map[string]any{"waited": e.Wait.String(), "bound": maxIv.String()})
 				}
 				ref.Advance(time.Since(start))
 			} else {
@@ -453,6 +509,9 @@ func (lb *layerB) replay(hist []ev) replayOut {
 				synctest.Wait()
 				checkSent(i)
 				v = ref.Recv(e.P)
+				if rx := time.Duration(e.P.RequiredRx) * time.Microsecond; v != mustDiscard && rx > maxIv {
+					maxIv = rx
+				}
 			}
 			o = observe()
 			want := ref.States()
@@ -536,7 +595,7 @@ func (lb *layerB) recovery() (states int) {
 		{Name: "peer:Up", P: pktP1(Up, discLocal, discR1), Cls: "recv-Up"},
 		{Name: "wait(250ms)", Wait: 250 * time.Millisecond, Cls: "wait"},
 		{Name: "peer:Up", P: pktP1(Up, discLocal, discR1), Cls: "recv-Up"},
-		{Name: "wait(DT1-1us)", Wait: dt1 - time.Microsecond, Cls: "wait"},
+		{Name: "wait(DT1-1us)", Wait: lb.cfg.detectionTime(pktP1(Up, discLocal, discR1)) - time.Microsecond, Cls: "wait"},
 	}
 	silent := ev{Name: "wait(2us)", Wait: 2 * time.Microsecond, Cls: "wait"}
 	mc.ParallelFor(len(reps), func(i int) {
@@ -611,8 +670,8 @@ func (lb *layerB) ties() {
 					}
 					tp := pktP1(st, discLocal, discR1)
 					w, _ := toWire(tp)
-					go func() { time.Sleep(dt1); s.ReceiveMessage(w) }()
-					time.Sleep(dt1)
+					go func() { time.Sleep(c.detectionTime(pktP1(Up, discLocal, discR1))); s.ReceiveMessage(w) }()
+					time.Sleep(c.detectionTime(pktP1(Up, discLocal, discR1)))
 					synctest.Wait()
 					ref.Advance(time.Since(start))
 					ref.Recv(tp)
@@ -831,8 +890,21 @@ func (sc cScenario) Name() string {
 
 const (
 	sampleStep = 250*time.Millisecond + 7*time.Microsecond
-	epochLen   = 24 // samples: 6 s
+	epochLen   = 24 // samples: 6 s (times pairUnit)
 )
+
+// pairUnit scales the epochs of a pair: 1 for intervals up to 200ms, else slowest interval / 200ms.
+func pairUnit(c *[2]sessCfg) time.Duration {
+	m := 200 * time.Millisecond
+	for _, x := range c {
+		for _, d := range []time.Duration{x.Desired, x.Required} {
+			if d > m {
+				m = d
+			}
+		}
+	}
+	return (m + 200*time.Millisecond - 1) / (200 * time.Millisecond)
+}
 
 func (lc *layerC) run(sc cScenario) {
 	viol := func(key string, d map[string]any) {
@@ -841,6 +913,7 @@ func (lc *layerC) run(sc cScenario) {
 	}
 	var harness string
 	p := bubble(lc.t, func() {
+		step := sampleStep * pairUnit(sc.cfgs)
 		w := &world{start: time.Now(), cfg: *sc.cfgs, mode: mNone, mask: sc.masks, maskK: sc.maskK}
 		var done [2]chan error
 		var ref [2]*Ref
@@ -965,7 +1038,7 @@ func (lc *layerC) run(sc cScenario) {
 			leftUp := false
 			gotInEpoch = [2]int{}
 			sample := func() {
-				time.Sleep(sampleStep)
+				time.Sleep(step)
 				synctest.Wait()
 				a, b = digest(ei)
 				up := a.St == Up && b.St == Up
@@ -989,7 +1062,9 @@ func (lc *layerC) run(sc cScenario) {
 				}
 				if a.St == Up && b.St == Up {
 					lc.cnt.add("info:deliver-all-epoch-needed-more-than-6s-to-reach-Up/Up:"+sc.cfgs[0].Name+"+"+sc.cfgs[1].Name, 1)
-					lc.late(time.Duration(epochLen+k)*sampleStep, sc, ei, w)
+					if step == sampleStep {
+						lc.late(time.Duration(epochLen+k)*step, sc, ei, w)
+					}
 					for j := 0; j < 8; j++ { // and then it has to stay
 						sample()
 					}
@@ -1001,7 +1076,7 @@ func (lc *layerC) run(sc cScenario) {
 				switch {
 				case !(a.St == Up && b.St == Up):
 					viol("c/no-recovery/"+canon(a, b), map[string]any{"epoch": ei, "mode": m.String(), "last_epoch": last,
-						"end_state": canon(a, b), "expected": "Up/Up after 60s of a link that delivers everything",
+						"end_state": canon(a, b), "expected": "Up/Up after 60s (times the pair's time unit) of a link that delivers everything",
 						"log_tail": w.tail(60)})
 					lc.cnt.add("c:recovery-failed", 1)
 				case leftUp && m == mAll:
@@ -1085,6 +1160,20 @@ func TestC16(t *testing.T) {
 			sessCfg{Name: "bootstrapped", Local: discLocal, Remote: discR1, Mult: 3, Desired: 200 * time.Millisecond, Required: 100 * time.Millisecond},
 			sessCfg{Name: "mult1-slow-tx", Local: discLocal, Mult: 1, Desired: 2 * time.Second, Required: 100 * time.Millisecond})
 	}
+	// Configurations that only run the wide-interval search: local intervals around the width boundaries.
+	us := time.Microsecond
+	wideOnly := map[string]bool{}
+	wcfgs := []sessCfg{{Name: "slow-local(5s/4294968us)", Local: discLocal, Mult: 3, Desired: 5 * time.Second, Required: 4294968 * us}}
+	if mc.Thorough() {
+		wcfgs = append(wcfgs,
+			sessCfg{Name: "tiny-rx(50ms/1us)", Local: discLocal, Mult: 2, Desired: 50 * time.Millisecond, Required: 1 * us},
+			sessCfg{Name: "max-local(2^32-1us/2^31us)", Local: discLocal, Mult: 255, Desired: (1<<32 - 1) * us, Required: (1 << 31) * us},
+			sessCfg{Name: "edge-local(2147484us/65536us)", Local: discLocal, Mult: 1, Desired: 2147484 * us, Required: 65536 * us})
+	}
+	for _, c := range wcfgs {
+		wideOnly[c.Name] = true
+		cfgs = append(cfgs, c)
+	}
 	core := coreEvents()
 	all := append(append([]ev{}, core...), discardEvents()...)
 	bStates := 0
@@ -1095,14 +1184,23 @@ func TestC16(t *testing.T) {
 		if mc.Thorough() && c.Name == "learn" {
 			d1, d2 = 7, 5
 		}
-		st := mc.BFS(lb.space(core, d1, true))
-		r.Report(st)
-		r.Extra["b_core_"+c.Name] = fmt.Sprintf("events=%d depth=%d states=%d transitions=%d merge_checks=%d complete=%v",
-			len(core), st.Depth, st.States, st.Transitions, st.MergeChecks, st.Complete)
-		st2 := mc.BFS(lb.space(all, d2, false))
-		r.Report(st2)
-		r.Extra["b_full_"+c.Name] = fmt.Sprintf("events=%d depth=%d states=%d transitions=%d complete=%v",
-			len(all), st2.Depth, st2.States, st2.Transitions, st2.Complete)
+		if !wideOnly[c.Name] {
+			st := mc.BFS(lb.space(core, d1, true))
+			r.Report(st)
+			r.Extra["b_core_"+c.Name] = fmt.Sprintf("events=%d depth=%d states=%d transitions=%d merge_checks=%d complete=%v",
+				len(core), st.Depth, st.States, st.Transitions, st.MergeChecks, st.Complete)
+			st2 := mc.BFS(lb.space(all, d2, false))
+			r.Report(st2)
+			r.Extra["b_full_"+c.Name] = fmt.Sprintf("events=%d depth=%d states=%d transitions=%d complete=%v",
+				len(all), st2.Depth, st2.States, st2.Transitions, st2.Complete)
+		}
+		if wideOnly[c.Name] || c.Name == "learn" || mc.Thorough() {
+			wide := wideEvents(c)
+			st3 := mc.BFS(lb.space(wide, mc.Pick(3, 4), false))
+			r.Report(st3)
+			r.Extra["b_wide_"+c.Name] = fmt.Sprintf("events=%d depth=%d states=%d transitions=%d complete=%v",
+				len(wide), st3.Depth, st3.States, st3.Transitions, st3.Complete)
+		}
 		bStates += lb.recovery()
 		lb.ties()
 	}
@@ -1121,14 +1219,32 @@ func TestC16(t *testing.T) {
 			[2]sessCfg{{Name: "boot-m3/200/100", Mult: 3, Desired: 200 * time.Millisecond, Required: 100 * time.Millisecond, Remote: 2},
 				{Name: "boot-m2/300/300", Mult: 2, Desired: 300 * time.Millisecond, Required: 300 * time.Millisecond, Remote: 1}})
 	}
+	// Pairs with intervals around the width boundaries and large everyday values; their epochs are scaled with
+	// the slowest interval (see pairUnit). They get shorter histories.
+	nNarrow := len(pairs)
+	pairs = append(pairs,
+		[2]sessCfg{{Name: "m3/5s/100ms", Mult: 3, Desired: 5 * time.Second, Required: 100 * time.Millisecond},
+			{Name: "m3/5s/100ms", Mult: 3, Desired: 5 * time.Second, Required: 100 * time.Millisecond}},
+		[2]sessCfg{{Name: "m2/4294968us/4294967us", Mult: 2, Desired: 4294968 * us, Required: 4294967 * us},
+			{Name: "m3/2147484us/2147483us", Mult: 3, Desired: 2147484 * us, Required: 2147483 * us}})
+	if mc.Thorough() {
+		pairs = append(pairs,
+			[2]sessCfg{{Name: "m2/60s/1s", Mult: 2, Desired: 60 * time.Second, Required: time.Second},
+				{Name: "m3/200ms/5s", Mult: 3, Desired: 200 * time.Millisecond, Required: 5 * time.Second}},
+			[2]sessCfg{{Name: "m1/65536us/65535us", Mult: 1, Desired: 65536 * us, Required: 65535 * us},
+				{Name: "m4/65535us/1us", Mult: 4, Desired: 65535 * us, Required: 1 * us}})
+	}
 	for i := range pairs {
 		pairs[i][0].Local, pairs[i][1].Local = 1, 2
 	}
 	modes := []linkMode{mAll, mNone, mDropAB, mDropBA, mBurst1, mBurst2, mAdmin}
-	depth := mc.Pick(3, 5)
 	var scs []cScenario
 	for pi := range pairs {
 		pr := &pairs[pi]
+		depth, k := mc.Pick(3, 5), mc.Pick(5, 8)
+		if pi >= nNarrow {
+			depth, k = mc.Pick(2, 3), mc.Pick(3, 5)
+		}
 		n := 1
 		for i := 0; i < depth; i++ {
 			n *= len(modes)
@@ -1140,7 +1256,6 @@ func TestC16(t *testing.T) {
 			}
 			scs = append(scs, cScenario{cfgs: pr, epochs: append(eps, mAll)})
 		}
-		k := mc.Pick(5, 8)
 		cold, warm := []linkMode{mMask, mAll}, []linkMode{mAll, mMask, mAll}
 		for _, eps := range [][]linkMode{cold, warm} {
 			for ma := uint32(0); ma < 1<<uint(k); ma++ {
